@@ -62,7 +62,11 @@ def run(ctx, eng):
                     nd.func.value.attr in ('streams', '_closed_streams'):
                 ins_closed.add(q + ' (via %s)' % nd.func.attr)
     ctx.ob('OWN.writers', 'connection.H2Connection.streams', 'inserters',
-           ins_streams == {H + '_begin_new_stream', H + 'push_stream',
+           # _begin_new_stream is the inserter; the two push paths store the
+           # stream it returned once more under the same id (redundant, so
+           # its absence is no violation), nobody else may insert
+           H + '_begin_new_stream' in ins_streams and
+           ins_streams <= {H + '_begin_new_stream', H + 'push_stream',
                            H + '_receive_push_promise_frame'},
            'inserted by %s' % sorted(x.split('.')[-1] for x in ins_streams))
     ctx.ob('OWN.writers', 'connection.H2Connection._closed_streams',
